@@ -433,8 +433,10 @@ func inDomain(word string, o Opts, t Tree) bool {
 			if prev == "**" {
 				return false // class globstar_repeated
 			}
-			if strings.ContainsAny(prev, "*?[") {
-				return false // class globstar_after_glob_component
+			for _, q := range comps[:i] {
+				if strings.ContainsAny(q, "*?[") {
+					return false // class globstar_after_glob_component (also with . components in between)
+				}
 			}
 		}
 	}
